@@ -26,6 +26,14 @@ CHECKS["C09"] = ("exploration", "DESIGN.md §7 C09",
     "variants built by an independent encoder; negatives must raise ValueError.",
     "Trusts the independent rolling-XOR encoder (anchored: it reproduces the repository's XorEncoded samples) and BytesIO semantics.")
 
+CHECKS["C01"] = ("exploration", "DESIGN.md §7 C01",
+    "deterministic simulation: stored payloads read through a simulated device with chunk-size seam; seeded layouts/keys/offsets; reference-scanner oracle",
+    "Seeded search over container layouts (raw, PE .data, XorEncoded PE), XOR keys, key lists/all-keys mode, embedding "
+    "offsets biased to chunk boundaries/offset 0/EOF, filler kinds, decoy blocks, entry points and chunk sizes; the "
+    "real extractors read the stored image through the simulator's file and the result is compared with an "
+    "executable reference scanner and TLV decoder over the same image.",
+    "Trusts the independent builder/scanner (anchored to the repository's real samples in selftest anchors); all-keys runs with several candidate leftover keys are discarded as ambiguous.")
+
 NOT_APPLICABLE = {
     "C02": "Pure function config-block bytes -> settings/views; no schedule, clock, fault, reader state or history for a simulator to control.",
     "C03": "Pure decoders of binary sub-encodings (bytes -> steps/strings); nothing to inject or interleave.",
